@@ -139,6 +139,12 @@ def run(ctx):
                 ctx.report("C08-non-procedure", "eval_procedure_call/operator", "operator expression is not evaluated", where_of(epc))
     ctx.guarded('C08-non-procedure', d_np >= 4, _old_nonproc)
 
+    # ------------------------------------------------------------------ C08-operand-types
+    ctx.rule("C08-operand-types", "the numeric predicates = < <= > >= on 0..3 operands one of which is not a number (every position, "
+                                  "the comparisons before it holding): a type error, never an invented value")
+    from . import numtables as _nt_ot
+    _nt_ot.rule_operand_types(ctx, "C08-operand-types")
+
     # ------------------------------------------------------------------ C08-expect-tables
     ctx.rule("C08-expect-tables", "Value::expect_X is Ok exactly on variant X and Err(TypeMisMatch) otherwise")
     vvars = fb.variants("values::Value")
